@@ -44,6 +44,17 @@ Theorem C20_subst_file_fun : forall (f : fsys) (p : path) (t t' : bytes),
 Proof. exact subst_file_fun. Qed.
 Print Assumptions C20_subst_file_fun.
 
+(* the substitution is defined exactly on the files below which the include graph is acyclic with every target present *)
+Theorem C20_subst_defined_iff : forall (f : fsys) (p : path), (exists t, subst_file f p t) <-> good f p.
+Proof. exact subst_defined_iff. Qed.
+Print Assumptions C20_subst_defined_iff.
+
+Theorem C20_good_iff : forall (f : fsys) (p : path),
+  good f p <-> ((forall q, reach f p q -> ~ on_cycle f q) /\
+                (lookup f p <> None /\ forall q raw, reach f p q -> ~ dangling f q raw)).
+Proof. exact good_iff. Qed.
+Print Assumptions C20_good_iff.
+
 (* 3. Cycles.  A cycle reachable from the root never yields a text; if moreover every reachable target is
       present, the result is the circular-include error.  (When the graph has both a reachable cycle and a
       reachable missing target, the error met first in depth-first line order is returned; it is one of the two
@@ -128,6 +139,22 @@ Theorem C20_non_include_braces_untouched : forall (f : fsys) (dir : path) (pre :
   exists t1 t2, t = t1 ++ l ++ t2 /\ subst_lines f dir pre fc t1 /\ subst_lines f dir post None t2.
 Proof. exact non_include_lines_untouched. Qed.
 Print Assumptions C20_non_include_braces_untouched.
+
+(* what opens a fence: at most 3 spaces, then a maximal run of at least 3 backticks or at least 3 tildes
+   (is_code_fence_close additionally asks for the same marker, at least the opener's length, and only
+   blanks after the run) *)
+Theorem C20_code_fence_delimiter_sound : forall (l : bytes) (m : ascii) (n : nat) (after : bytes),
+  code_fence_delimiter l = Some (m, n, after) ->
+  exists k, k <= 3 /\ l = repeat c_sp k ++ repeat m n ++ after /\ (m = c_tick \/ m = c_tilde) /\ 3 <= n /\
+            match after with c :: _ => c <> m | [] => True end.
+Proof. exact code_fence_delimiter_sound. Qed.
+Print Assumptions C20_code_fence_delimiter_sound.
+
+Theorem C20_code_fence_delimiter_complete : forall (k : nat) (m : ascii) (n : nat) (after : bytes),
+  k <= 3 -> (m = c_tick \/ m = c_tilde) -> 3 <= n -> match after with c :: _ => c <> m | [] => True end ->
+  code_fence_delimiter (repeat c_sp k ++ repeat m n ++ after) = Some (m, n, after).
+Proof. exact code_fence_delimiter_complete. Qed.
+Print Assumptions C20_code_fence_delimiter_complete.
 
 (* a file all of whose include-looking lines are inside fences expands to itself *)
 Theorem C20_expand_verbatim : forall (f : fsys) (p : path) (src : bytes) (n : nat) (active : list path),
